@@ -520,7 +520,8 @@ def beginEexec : SM Unit := do
   let isBinary := !bb.all isHexDigit
   modS (fun s => { s with eexec := if isBinary then 2 else 1, r := Cipher.eexecR, regurgitate := true })
   skipIV 4
-  modS (fun s => { s with regurgitate := false })
+  -- the plaintext starts a new line, whatever the lead bytes happen to decrypt to
+  modS (fun s => { s with regurgitate := false, col := 0, crSeen := false })
 
 def endEexec : SM Unit := modS (fun s => { s with eexec := 0 })
 
